@@ -15,7 +15,7 @@ FIELD_INSTANCES = ([I('f_' + f, 'h_f_' + f) for f in PUBLIC_FIELDS + BOTH_FIELDS
                    + [CASE('hint', k, 4) for k in range(4)]
                    + [CASE('chat_state', k, 5, tiers=('quick', 'thorough') if k in (0, 4) else ('thorough',)) for k in range(5)]
                    + [CASE('marker', k, 3, tiers=('quick', 'thorough') if k == 1 else ('thorough',)) for k in range(3)])
-BIG = dict(unwind=40, cdefs={'DOM_MAXCH': 36, 'DOM_MAXATTR': 24}, mem_gb=8, timeout_s=600)
+BIG = dict(unwind=40, object_bits=14, cdefs={'DOM_MAXCH': 36, 'DOM_MAXATTR': 24}, mem_gb=8, timeout_s=600)
 COMPOSITE = [I('allset', 'h_allset', bound='message with EVERY extension set at once (12 public + 24 sensitive elements); ' + STR, **BIG),
              I('allset_all', 'h_allset_all', bound='message with every extension set, unsplit (SceAll); ' + STR, **BIG),
              I('envelope', 'h_envelope', bound='message with every extension set, real e2ee flow (outer stanza + SCE envelope content); ' + STR, **BIG),
